@@ -96,6 +96,8 @@ ValueWhy(res, E) ==
 
 ProdWhy(o, op, a, res) ==
   IF ~Pre(o, op, a) THEN "precondition"
+  \* a product is a pure function of its operands: the harness reports a receiver whose arrays differ after the call
+  ELSE IF res.kind = "receiver-changed" THEN "receiver-changed-by-the-call"
   ELSE IF op = "mttkrps"
     THEN (IF res.kind # "matrices" THEN "result-kind"
           ELSE IF Len(res.ms) # NDimsObj(o) THEN "length"
